@@ -287,6 +287,7 @@ def has_none(o):
 KF_FALSY = 'C17-falsy-merge'
 KF_PARTIAL = 'C17-partial-sync'
 KF_STATUS2 = 'C17-status2-unacked'
+KF_MT_PENDING = 'C17-mt-pending-invalidation'
 
 
 def py_clean(h):
@@ -902,10 +903,15 @@ def monitor_mt(h, items):
         if o[0] == 'C' and it['obs'].startswith('C'):
             seen = [int(x) for x in it['obs'][1:].split(',')]
             want = [cont0(x) for x in o[5:10]]
+            own_inval = cid in ((it.get('sent') or {}).get('invalidation') or [])
             for fn, a, b in zip(FIELDS, seen, want):
                 if a != b:
                     scope = (cid, fn) if fn in ('gs', 'sc') else (cid, o[4], fn)
                     cause = taint.get((w, scope), (None,))[0]
+                    if cause is None and own_inval and fn == 'us' and a == 0:
+                        # the request carried an invalidation for its own tenant: the worker dropped the
+                        # tenant and rebuilt it from the partial diff (user schema not transmitted -> None)
+                        cause = KF_MT_PENDING
                     fails.append((i, 'args', f'tenant {cid} {fn}: compiler entered with content {a}, request supplied '
                                   f'object {o[5 + FIELDS.index(fn)]} of content {b}', cause))
         if o[0] == 'T' and it['obs'].startswith('T'):
@@ -991,7 +997,9 @@ def run_mt(tier, rep, known):
     r = lib.rng('C17mt')
     n = 3000 if tier == 'quick' else 40000
     hs = [gen_mt(r) for _ in range(n)]
-    fixed = ['R 1 ; C 1 7 sq 1 2 4 8 10 6 n ; C 1 7 sq 1 2 4 8 100 6 n ; C 1 7 sq 1 2 4 8 10 6 n',
+    fixed = ['R 1 ; C 1 7 c1 1 6 2 7 4 5 n ; D 7 ; C 1 7 c1 1 6 3 3 5 4 n',
+             'R 1 ; C 1 7 sq 1 2 4 8 10 6 n ; C 1 8 sq 1 2 4 8 10 6 n ; C 1 9 sq 1 2 4 8 10 6 q ; C 1 7 sq 1 2 14 18 20 16 n',
+             'R 1 ; C 1 7 sq 1 2 4 8 10 6 n ; C 1 7 sq 1 2 4 8 100 6 n ; C 1 7 sq 1 2 4 8 10 6 n',
              'R 1 ; C 1 7 c1 1 2 4 8 10 6 n ; C 1 7 sq 1 12 14 8 10 6 u2 ; T 1 7 1 2 2 n',
              'R 1 ; C 1 7 sq 1 2 4 8 10 6 n ; C 1 8 sq 1 2 4 8 10 6 n ; C 1 9 sq 1 2 4 8 10 6 u4 ; C 1 7 sq 1 2 4 8 10 6 n']
     hs = [dec_mt(x) for x in fixed] + hs
@@ -1026,8 +1034,9 @@ def run_mt(tier, rep, known):
         small = shrink_mt(hs[m[0]], mt_pred(m[2], m[4]))
         so = run_impl([enc_mt(small)], 'mt')[0]
         sf = [x for x in monitor_mt(small, json.loads(so)) if x[1] == m[2] and x[3] == m[4]]
-        viol.append((f'monitor {m[2]} failed on the real MULTI-TENANT compiler pool: {sf[0][2] if sf else m[3]}',
-                      {'case': enc_mt(small), 'mode': 'mt', 'original_case': lines[m[0]],
+        viol.append((f'monitor {m[2]} failed on the real MULTI-TENANT compiler pool: {sf[0][2] if sf else m[3]}'
+                     + (f' [this is the defect {m[4]}, which is not in known_findings.json]' if m[4] else ''),
+                      {'case': enc_mt(small), 'proposed_known_finding': m[4], 'mode': 'mt', 'original_case': lines[m[0]],
                        'failing_request_index': sf[0][0] if sf else m[1], 'impl_result': so,
                        'how': f'echo "<case>" | PYTHONPATH={lib.REPO}:/verif/harness /venv/bin/python harness/impl/c17_impl.py {lib.REPO} mt'}, True))
         if len(seen) >= 2:
